@@ -235,7 +235,9 @@ pub fn net_cfg(cell: &Cell, p: &TraceParams, topo: Topo, menu: Menu) -> NetCfg {
         topo,
         seq_loc: cell.seq_loc(),
         initial_sequence: p.initial_sequence,
-        delta_ns: MS,
+        // handing over one datagram costs 1 ms of virtual time in the millisecond-scale scenarios and
+        // 1 us in the microsecond-scale ones (long rounds of up to 254 probes)
+        delta_ns: if p.read_timeout < Duration::from_millis(1) { 1_000 } else { MS },
         menu,
         fixed_sport: matches!(cell.ports, Ports::FixedSrc | Ports::FixedBoth).then_some(FIXED_SPORT),
         fixed_dport: matches!(cell.ports, Ports::FixedDest | Ports::FixedBoth).then_some(FIXED_DPORT),
